@@ -16,6 +16,10 @@ of the Rust field types + the representable field combinations of the property):
     (`isSingleItem e.encode`, i.e. `parseItem` consumes them completely), and
   - the decoder reads the bytes back to `m` itself.
 
+**Partial**: the local-tx-submission reject reason is an opaque item here; the type pallas really
+uses (`TxValidationError`) is not modelled and its *encoders* violate the property on the unchanged
+tree (`localtxsubmission_partial`, `txvalidationerror_reencoding_not_an_item`, known findings).
+
 Opaque `AnyCbor` payloads (local-state query/result, opaque reject reasons, Leios bodies / votes /
 transactions) are arbitrary byte strings accepted by `okAny`: exactly one well-formed item
 (`isSingleItem`) over which the modelled `Decoder::skip` goes exactly — proved for every item
@@ -105,10 +109,33 @@ theorem localstate (m : LocalState.Msg) (h : m.valid okAny = true) :
     Good (fun m => some (LocalState.Msg.enc m)) LocalState.Msg.dec m :=
   good_of_spec (LocalState.Msg.spec okAny okAny_ok m h)
 
-/-- node-to-client instance with an opaque reject reason -/
-theorem localtxsubmission (m : LocalTx.Msg EraTx OpaqueReject) (h : m.valid EraTx.valid (OpaqueReject.valid okAny) = true) :
+/-- **full statement for local-tx-submission**: the envelope `Message<Tx, Reject>` is `Good` for every
+    transaction / reject codec that is itself a faithful pair (`Spec`). -/
+def FullStatement_localtxsubmission (Tx Rej : Type) (encTx : Tx → E) (decTx : Dec Tx) (vTx : Tx → Bool)
+    (encRej : Rej → E) (decRej : Dec Rej) (vRej : Rej → Bool) (ofString : Bytes → Rej) : Prop :=
+  ∀ m : LocalTx.Msg Tx Rej, m.valid vTx vRej = true →
+    Good (fun m => some (LocalTx.Msg.enc encTx encRej m)) (LocalTx.Msg.dec decTx decRej ofString) m
+
+theorem localtxsubmission_envelope {Tx Rej : Type} (encTx : Tx → E) (decTx : Dec Tx) (vTx : Tx → Bool)
+    (encRej : Rej → E) (decRej : Dec Rej) (vRej : Rej → Bool) (ofString : Bytes → Rej)
+    (hTx : ∀ t, vTx t = true → Spec encTx decTx t) (hRej : ∀ x, vRej x = true → Spec encRej decRej x) :
+    FullStatement_localtxsubmission Tx Rej encTx decTx vTx encRej decRej vRej ofString :=
+  fun m h => good_of_spec (LocalTx.Msg.spec _ _ _ _ _ _ _ hTx hRej m h)
+
+/-- node-to-client instance, **partial**: the reject reason is an opaque well-formed item. For the
+    reject type pallas really uses (`TxValidationError`, not modelled) the hypothesis `hRej` of
+    `localtxsubmission_envelope` is *false* on the unchanged tree — see the witnesses below and
+    known_findings.d/C22.json (`C22-txvalidationerror-*`). -/
+theorem localtxsubmission_partial (m : LocalTx.Msg EraTx OpaqueReject) (h : m.valid EraTx.valid (OpaqueReject.valid okAny) = true) :
     Good (fun m => some (LocalTx.Msg.enc EraTx.enc OpaqueReject.enc m)) (LocalTx.Msg.dec EraTx.dec OpaqueReject.dec .text) m :=
-  good_of_spec (LocalTx.Msg.spec _ _ _ _ _ _ _ EraTx.spec (OpaqueReject.spec okAny okAny_ok) m h)
+  localtxsubmission_envelope _ _ _ _ _ _ _ EraTx.spec (OpaqueReject.spec okAny okAny_ok) m h
+
+/-- witness (reject reason 51 of the repo's tests, decoded and re-encoded by pallas as
+    `Message<EraTx, TxValidationError>`): an inner encoder declares `array(2)` + label 2 where the
+    decoder reads `array(3)` + label 3 with two fields — the bytes are not one CBOR item. -/
+theorem txvalidationerror_reencoding_not_an_item :
+    isSingleItem [0x82, 0x02, 0x81, 0x82, 0x06, 0x82, 0x82, 0x07, 0x61, 0x3c, 0x82, 0x02, 0x82, 0x01, 0x82, 0x02,
+      0x82, 0x02, 0x1a, 0x00, 0x07, 0xaf, 0x38, 0x1a, 0x00, 0x06, 0x28, 0x0e] = false := by decide
 
 /-- DMQ local message submission = the same envelope over `DmqMsg` / `DmqMsgValidationError` -/
 theorem localmsgsubmission (m : LocalTx.Msg DmqMsg DmqReject) (h : m.valid DmqMsg.valid DmqReject.valid = true) :
